@@ -1191,10 +1191,15 @@ package gmars
 //@   modifies nothing
 //@ trusted newBufTokenReader
 //@   modifies nothing
-//@   ensures fresh(result)
+//@   ensures fresh(result) && result.tokens == tokens
+// the symbol table of a token list (C08): the FOR expander must be handed the table scanned from the very
+// token list it expands -- a later pass sees EQU lines an earlier pass could not reach
+//@ uf symsOf(toks Slice) int
 //@ trusted ScanInput
 //@   modifies nothing
+//@   ensures result.2 == nil ==> result.0 == symsOf(as(lex, bufTokenReader).tokens)
 //@ trusted ForExpand
+//@   requires [C08] symbols == symsOf(as(lex, bufTokenReader).tokens)
 //@   modifies nothing
 //@ trusted newParser
 //@   modifies nothing
@@ -1350,9 +1355,11 @@ package gmars
 //@ func (token).NoOperandsOk
 //@   panics [C05]
 //@   modifies nothing
+//@ pure pseudoWord(s Str) = s == "end" || s == "equ" || s == "org" || s == "for" || s == "rof"
 //@ func (token).IsPseudoOp
 //@   panics [C05]
 //@   modifies nothing
+//@   ensures [C08] result == pseudoWord(lower(t.val))
 //@ func (token).IsExpressionTerm
 //@   panics [C05]
 //@   modifies nothing
@@ -1505,6 +1512,22 @@ package gmars
 // which the body's state functions keep appending to)
 //@ pure forOK(f *forExpander) = f != nil && f.lex != nil && (len(f.forLineLabels) > 0 ==> arr(f.forLineLabels) != arr(f.labelBuf))
 //@      && f.lex.left >= 0 && (f.atEOF == f.lex.ended) && (f.atEOF ==> isTerminal(f.nextToken.typ))
+//@      && f.forCount <= 2147483647 && forClean(f)
+// the buffered tokens (FOR count expression, FOR body) never hold an EOF or error token
+//@ pure forClean(f *forExpander) = (forall k :: 0 <= k && k < len(f.exprBuf) ==> !termTok(f.exprBuf[k])) && (forall k :: 0 <= k && k < len(f.forContent) ==> !termTok(f.forContent[k]))
+// the output protocol (C05): the reader (Tokens) stops at the first EOF or error token, so nothing may be sent
+// after one -- a later send would block the expander's goroutine forever. A state either sends no terminal
+// token, or sends exactly one as its last token and stops the machine.
+//@ pure forOpen(f *forExpander, n0 int) = sent(f.tokens) >= n0 && (forall k :: n0 <= k && k < sent(f.tokens) ==> !termTok(sentAt(f.tokens, k)))
+//@ pure forEnded(f *forExpander, n0 int) = sent(f.tokens) > n0 && termTok(lastSent(f.tokens)) && (forall k :: n0 <= k && k < sent(f.tokens) - 1 ==> !termTok(sentAt(f.tokens, k)))
+//@ pure forSt(st int) = st == forLine || st == forConsumeLabels || st == forWriteLabelsEmitConsumeLine || st == forConsumeEmitLine || st == forConsumeExpression || st == forFor
+//@      || st == forInnerLine || st == forInnerLabels || st == forInnerEmitLabels || st == forInnerEmitConsumeLine || st == forRof || st == forEmitConsumeStream
+//@ pure forPre(f *forExpander, st int) = st == forWriteLabelsEmitConsumeLine ==> f.nextToken.typ == tokText
+// what no state changes: the channel, the input, and the buffers' backing arrays (kept or freshly allocated)
+//@ pure keptArr(a int, a0 int) = a == a0 || fresh(a)
+//@ pure forSame(f *forExpander) = f.tokens == old(f.tokens) && f.lex == old(f.lex) && keptArr(arr(f.labelBuf), old(arr(f.labelBuf))) && keptArr(arr(f.exprBuf), old(arr(f.exprBuf)))
+//@      && keptArr(arr(f.forContent), old(arr(f.forContent))) && (keptArr(arr(f.forLineLabelsToWrite), old(arr(f.forLineLabelsToWrite))) || arr(f.forLineLabelsToWrite) == 0)
+//@ pure forProto(f *forExpander, res int, n0 int) = (forOpen(f, n0) || (res == 0 && forEnded(f, n0))) && (res != 0 ==> forSt(res) && forPre(f, res))
 // progress measure of the expander's input: it decreases with every call of next() made before the terminal token
 //@ pure forLeft(f *forExpander) = f.lex.left + ite(f.atEOF, 0, 1)
 //@ pure forBlockSame(f *forExpander) = f.forCountLabel == old(f.forCountLabel) && f.forCount == old(f.forCount) && f.forLineLabels == old(f.forLineLabels)
@@ -1519,33 +1542,51 @@ package gmars
 //@ func (*forExpander).emitConsume
 //@   panics [C05]
 //@   requires forOK(f)
+//@   requires [C05] termTok(f.nextToken) ==> nextState == 0
 //@   modifies f.atEOF, f.nextToken, chan f.tokens, ghost f.lex.*
 //@   ensures forOK(f)
+//@   ensures [C05] result == nextState && sent(f.tokens) == old(sent(f.tokens)) + 1 && lastSent(f.tokens) == old(f.nextToken)
+// the driver: whatever the states did, nothing is sent after a terminal token (F15: the unconditional extra EOF
+// that used to follow the state machine was such a send whenever a state had already ended the stream)
+//@ func (*forExpander).run
+//@   panics [C05]
+//@   requires forOK(f)
+//@   modifies f.*, f.labelBuf[*], f.exprBuf[*], f.forContent[*], chan f.tokens, ghost f.lex.*
+//@   ensures [C05] forOpen(f, old(sent(f.tokens))) || forEnded(f, old(sent(f.tokens)))
+//@   loop 1
+//@     invariant forOK(f) && forSame(f)
+//@     invariant [C05] state != 0 ==> forOpen(f, old(sent(f.tokens))) && forSt(state) && forPre(f, state)
+//@     invariant [C05] state == 0 ==> forOpen(f, old(sent(f.tokens))) || forEnded(f, old(sent(f.tokens)))
 //@ func forLine
 //@   panics [C05]
 //@   requires forOK(f)
 //@   modifies f.*, f.labelBuf[*], f.exprBuf[*], f.forContent[*], chan f.tokens, ghost f.lex.*
 //@   ensures forOK(f)
+//@   ensures [C05] forProto(f, result, old(sent(f.tokens))) && forSame(f)
 //@ func forConsumeLabels
 //@   panics [C05]
 //@   requires forOK(f)
 //@   modifies f.*, f.labelBuf[*], f.exprBuf[*], f.forContent[*], chan f.tokens, ghost f.lex.*
 //@   ensures forOK(f)
+//@   ensures [C05] forProto(f, result, old(sent(f.tokens))) && forSame(f)
 //@ func forConsumeEmitLine
 //@   panics [C05]
 //@   requires forOK(f)
 //@   modifies f.*, f.labelBuf[*], f.exprBuf[*], f.forContent[*], chan f.tokens, ghost f.lex.*
 //@   ensures forOK(f)
+//@   ensures [C05] forProto(f, result, old(sent(f.tokens))) && forSame(f)
 //@ func forConsumeExpression
 //@   panics [C05]
 //@   requires forOK(f)
 //@   modifies f.*, f.labelBuf[*], f.exprBuf[*], f.forContent[*], chan f.tokens, ghost f.lex.*
 //@   ensures forOK(f)
+//@   ensures [C05] forProto(f, result, old(sent(f.tokens))) && forSame(f)
 //@ func forInnerLine
 //@   panics [C05][C08]
 //@   requires forOK(f)
 //@   modifies f.*, f.labelBuf[*], f.exprBuf[*], f.forContent[*], chan f.tokens, ghost f.lex.*
 //@   ensures forOK(f)
+//@   ensures [C05] forProto(f, result, old(sent(f.tokens))) && forSame(f)
 // the block header (counter, count, line labels) is not disturbed while the body is collected
 //@   ensures [C08] forBlockSame(f)
 //@ func forInnerEmitConsumeLine
@@ -1553,40 +1594,51 @@ package gmars
 //@   requires forOK(f)
 //@   modifies f.*, f.labelBuf[*], f.exprBuf[*], f.forContent[*], chan f.tokens, ghost f.lex.*
 //@   ensures forOK(f)
+//@   ensures [C05] forProto(f, result, old(sent(f.tokens))) && forSame(f)
 // the block header (counter, count, line labels) is not disturbed while the body is collected
 //@   ensures [C08] forBlockSame(f)
 //@ func forWriteLabelsEmitConsumeLine
 //@   panics [C05]
-//@   requires forOK(f)
+//@   requires forOK(f) && forPre(f, forWriteLabelsEmitConsumeLine)
 //@   modifies f.*, f.labelBuf[*], f.exprBuf[*], f.forContent[*], chan f.tokens, ghost f.lex.*
 //@   ensures forOK(f)
+//@   ensures [C05] forProto(f, result, old(sent(f.tokens))) && forSame(f)
 //@   loop 1
-//@     invariant forOK(f) && 0 - 1 <= rangeindex && rangeindex < len(f.labelBuf)
+//@     invariant forOK(f) && 0 - 1 <= rangeindex && rangeindex < len(f.labelBuf) && forOpen(f, old(sent(f.tokens))) && f.nextToken == old(f.nextToken)
 //@     decreases len(f.labelBuf) - rangeindex
 //@ func forInnerEmitLabels
 //@   panics [C05][C08]
 //@   requires forOK(f)
 //@   modifies f.*, f.labelBuf[*], f.exprBuf[*], f.forContent[*], chan f.tokens, ghost f.lex.*
 //@   ensures forOK(f)
+//@   ensures [C05] forProto(f, result, old(sent(f.tokens))) && forSame(f)
 // the block header (counter, count, line labels) is not disturbed while the body is collected
 //@   ensures [C08] forBlockSame(f)
 //@   loop 1
 //@     invariant forOK(f) && 0 - 1 <= rangeindex && rangeindex < len(f.labelBuf) && f.labelBuf == old(f.labelBuf) && (fresh(arr(f.forContent)) || arr(f.forContent) == old(arr(f.forContent)))
+//@ pure wordIs(t token, w Str) = t.typ == tokText && lower(t.val) == w
 //@ func forInnerLabels
 //@   panics [C05][C08]
 //@   requires forOK(f)
 //@   modifies f.*, f.labelBuf[*], f.exprBuf[*], f.forContent[*], chan f.tokens, ghost f.lex.*
 //@   ensures forOK(f)
+//@   ensures [C05] forProto(f, result, old(sent(f.tokens))) && forSame(f)
 // the block header (counter, count, line labels) is not disturbed while the body is collected
 //@   ensures [C08] forBlockSame(f)
+// nesting depth: a nested FOR opens one level, a ROF inside a nested block closes one, the ROF at depth 0 ends the block
+//@   ensures [C08] old(f.forDepth) < 4294967296 ==> f.forDepth == old(f.forDepth) + ite(wordIs(old(f.nextToken), "for"), 1, 0) - ite(wordIs(old(f.nextToken), "rof") && old(f.forDepth) > 0, 1, 0)
+//@   ensures [C08] (result == forRof) == (wordIs(old(f.nextToken), "rof") && old(f.forDepth) <= 0)
 //@   loop 1
 //@     invariant forOK(f) && 0 - 1 <= rangeindex && rangeindex < len(f.forLineLabelsToWrite) && f.forLineLabelsToWrite == old(f.forLineLabelsToWrite)
+//@     invariant f.forDepth == old(f.forDepth) && f.nextToken == old(f.nextToken) && forOpen(f, old(sent(f.tokens)))
 //@ func forEmitConsumeStream
 //@   panics [C05]
 //@   requires forOK(f)
 //@   modifies f.atEOF, f.nextToken, chan f.tokens, ghost f.lex.*
+//@   ensures forOK(f)
+//@   ensures [C05] forProto(f, result, old(sent(f.tokens))) && forSame(f)
 //@   loop 1
-//@     invariant forOK(f)
+//@     invariant forOK(f) && forOpen(f, old(sent(f.tokens)))
 
 // compile.go helpers
 //@ func exprEqual
@@ -1612,15 +1664,17 @@ package gmars
 //@ func forFor
 //@   panics [C05][C08]
 //@   requires forOK(f)
-//@   modifies f.*, f.labelBuf[*], f.exprBuf[*], f.forContent[*], f.forLineLabelsToWrite[*], chan f.tokens, ghost f.lex.*
+//@   modifies f.*, f.labelBuf[*], f.exprBuf[*], f.forContent[*], chan f.tokens, ghost f.lex.*
 //@   ensures forOK(f)
+//@   ensures [C05] forProto(f, result, old(sent(f.tokens))) && forSame(f)
 // the last label before FOR is the counter, the earlier ones are line labels, renamed __for_<counter>_<label>
 //@   ensures [C08] result != nil && len(old(f.labelBuf)) > 0 ==> f.forCountLabel == old(f.labelBuf[len(f.labelBuf) - 1]) && len(f.forLineLabels) == old(len(f.labelBuf)) - 1
 //@   ensures [C08] result != nil && len(old(f.labelBuf)) == 0 ==> f.forCountLabel == "" && len(f.forLineLabels) == 0
 //@   ensures [C08] result != nil ==> len(f.forLineLabelsToWrite) == len(f.forLineLabels) && len(f.forContent) == 0 && f.forCount == val
 //@   ensures [C08] result != nil ==> (forall k :: 0 <= k && k < len(f.forLineLabels) ==> f.forLineLabelsToWrite[k] == sprintf("__for_%s_%s", zeros()[0 := box_string(f.forCountLabel)][1 := box_string(f.forLineLabels[k])], 2))
 //@   loop 1
-//@     invariant forOK(f) && 0 - 1 <= rangeindex && rangeindex < len(f.exprBuf) && f.exprBuf == old(f.exprBuf) && fresh(arr(expr))
+//@     invariant forOK(f) && 0 - 1 <= rangeindex && rangeindex < len(f.exprBuf) && f.exprBuf == old(f.exprBuf) && fresh(arr(expr)) && sent(f.tokens) == old(sent(f.tokens))
+//@     invariant off(expr) == 0 && len(expr) == rangeindex + 1 && (forall k :: 0 <= k && k < len(expr) ==> !termTok(expr[k]))
 //@     decreases len(f.exprBuf) - rangeindex
 //@   loop 2
 //@     invariant f != nil && f.lex != nil && 0 - 1 <= rangeindex && rangeindex < len(f.forLineLabels) && len(f.forLineLabelsToWrite) == len(f.forLineLabels) && fresh(arr(f.forLineLabelsToWrite))
@@ -1638,25 +1692,26 @@ package gmars
 //@   requires forOK(f) && f.forCount <= 2147483647
 //@   modifies f.atEOF, f.nextToken, chan f.tokens, ghost f.lex.*
 //@   ensures forOK(f)
+//@   ensures [C05] forProto(f, result, old(sent(f.tokens))) && forSame(f)
 //@   loop 1
-//@     invariant forOK(f)
+//@     invariant forOK(f) && sent(f.tokens) == old(sent(f.tokens))
 // skipping the rest of the ROF line consumes input on every iteration
 //@     decreases [C05] forLeft(f)
 //@   loop 2
-//@     invariant forOK(f) && 1 <= i && i <= 2147483648 && f.forCount == old(f.forCount)
+//@     invariant forOK(f) && 1 <= i && i <= 2147483648 && f.forCount == old(f.forCount) && forOpen(f, old(sent(f.tokens)))
 // copies are numbered 1, 2, ... forCount; every copy emits exactly one token per body token
 //@     entry [C08] i == 1
 //@     exit header [C08] i > f.forCount
 //@     backedge [C08] sent(f.tokens) == iter(sent(f.tokens)) + len(f.forContent) && i == iter(i) + 1
 //@     decreases f.forCount + 1 - i
 //@   loop 3
-//@     invariant forOK(f) && 0 - 1 <= rangeindex && rangeindex < len(f.forContent) && 1 <= i && i <= f.forCount
+//@     invariant forOK(f) && 0 - 1 <= rangeindex && rangeindex < len(f.forContent) && 1 <= i && i <= f.forCount && forOpen(f, old(sent(f.tokens)))
 //@     invariant [C08] sent(f.tokens) == outer(sent(f.tokens)) + rangeindex + 1
 // token j of copy i is the body token j with the counter replaced by i and line labels renamed
 //@     backedge [C08] sent(f.tokens) == iter(sent(f.tokens)) + 1 && lastSent(f.tokens) == substTok(f, f.forContent[rangeindex], i)
 //@     decreases len(f.forContent) - rangeindex
 //@   loop 4
-//@     invariant forOK(f) && 0 - 1 <= rangeindex && rangeindex < len(f.forLineLabels)
+//@     invariant forOK(f) && 0 - 1 <= rangeindex && rangeindex < len(f.forLineLabels) && forOpen(f, old(sent(f.tokens)))
 //@     invariant [C08] (forall k :: 0 <= k && k <= rangeindex ==> f.forLineLabels[k] != tok.val) && sent(f.tokens) == outer(sent(f.tokens))
 //@     decreases len(f.forLineLabels) - rangeindex
 
